@@ -48,12 +48,15 @@ Definition enc_err (e : err) : N :=
   end.
 
 (* the implementation's answer: (class, x) with class 0 = Ok (x = hashN of the decoded message),
-   1 = Err (x = code of the error kind), 2 = panic *)
-Definition agrees (r : res rmsg) (expect : N * N) : bool :=
+   1 = Err (x = code of the error), 2 = panic.  The error KIND (the variant of alloy_rlp::Error) is
+   compared; the text of Error::Custom is compared only in the [strict] mode (codes >= 100 are the
+   texts). *)
+Definition norm_code (strict : bool) (c : N) : N := if strict then c else if 100 <=? c then 100 else c.
+Definition agrees (strict : bool) (r : res rmsg) (expect : N * N) : bool :=
   match r with
   | Ok m => N.eqb (fst expect) 0 && N.eqb (snd expect) (hashN (enc_msg m))
   | Err EOpaque => N.eqb (fst expect) 1          (* the error came out of Enr::decode: any kind *)
-  | Err e => N.eqb (fst expect) 1 && N.eqb (snd expect) (enc_err e)
+  | Err e => N.eqb (fst expect) 1 && N.eqb (norm_code strict (snd expect)) (norm_code strict (enc_err e))
   | Panic => N.eqb (fst expect) 2
   end.
 
@@ -70,7 +73,7 @@ Inductive cin :=
 
 Definition rcase := (N * cin * oracle * (N * N))%type.
 
-Definition check_case (fixed : bool) (c : rcase) : option mismatch :=
+Definition check_case (fixed strict : bool) (c : rcase) : option mismatch :=
   let '(id, input, o, expect) := c in
   let bs := match input with InMsg _ e => e | InBytes b => b end in
   let enc_ok := match input with
@@ -81,21 +84,24 @@ Definition check_case (fixed : bool) (c : rcase) : option mismatch :=
   | Some model_bytes => Some {| mm_case := id; mm_step := 0; mm_model := model_bytes; mm_impl := bs |}
   | None =>
     let r := run_decode fixed (table_of bs o) bs in
-    if agrees r expect then None
+    if agrees strict r expect then None
     else Some {| mm_case := id; mm_step := 1; mm_model := enc_res r; mm_impl := [fst expect; snd expect] |}
   end.
 
-Fixpoint check_all_with (fixed : bool) (cs : list rcase) : list mismatch :=
+Fixpoint check_all_with (fixed strict : bool) (cs : list rcase) : list mismatch :=
   match cs with
   | [] => []
   | c :: rest =>
-    match check_case fixed c with
-    | Some m => m :: check_all_with fixed rest
-    | None => check_all_with fixed rest
+    match check_case fixed strict c with
+    | Some m => m :: check_all_with fixed strict rest
+    | None => check_all_with fixed strict rest
     end
   end.
 
 (* the check of a run: the model of the repaired decoder *)
-Definition check_all := check_all_with true.
+Definition check_all := check_all_with true false.
+(* the same, comparing the texts of Error::Custom as well *)
+Definition check_all_strict := check_all_with true true.
 (* the model of the pinned tree (before the repair of D9) - used to reproduce the finding *)
-Definition check_all_pinned := check_all_with false.
+Definition check_all_pinned := check_all_with false false.
+Definition check_all_pinned_strict := check_all_with false true.
